@@ -73,6 +73,7 @@ struct Ctx {
 impl Ctx {
     /// run one stage; a panic becomes an event and None
     fn guard<T>(&mut self, stage: &str, f: impl FnOnce() -> T) -> Option<T> {
+        journal(&format!("S {}\n", stage));
         LAST_PANIC.with(|c| *c.borrow_mut() = None);
         match catch_unwind(AssertUnwindSafe(f)) {
             Ok(v) => Some(v),
